@@ -189,6 +189,9 @@ pub fn run(args: &Args) -> i32 {
     r.c02.require("dump_compares", 1);
     r.c19.require("roots_checked", 1);
     r.c20.require("views_checked", 1);
+    if FIXED_ORDER.with(|f| f.borrow().is_none()) {
+        r.c20.require("views_checked.after_restart", 1);
+    }
     for rep in [&mut r.c01, &mut r.c02, &mut r.c19, &mut r.c20] {
         rep.assume("RocksDB snapshot isolation and WAL atomicity are trusted");
         rep.assume("dao/reward/epoch fields of generated blocks are filled in by production calculators (judged by C06/C07 oracles, not here)");
@@ -468,7 +471,18 @@ fn deliver_and_check(
         unsafe { std::env::set_var("VERIF_ORPHAN_CLEAN_MS", "100") };
         r.c01.count("order.OrphansAcrossCleanTimer.realised");
     }
-    let node = Node::boot(gi, &NodeCfg::default());
+    // some runs use a database directory so that the node can be restarted at the end
+    static RESTART_DIR: std::sync::atomic::AtomicU64 = std::sync::atomic::AtomicU64::new(0);
+    let restart_root = if matches!(kind, OrderKind::InOrder | OrderKind::SwitchBack | OrderKind::Random | OrderKind::ChildBeforeParent) {
+        Some(vnode::node::scratch_dir().join(format!("restart-{}", RESTART_DIR.fetch_add(1, Ordering::SeqCst))))
+    } else {
+        None
+    };
+    let node_cfg = match &restart_root {
+        Some(root) => NodeCfg { db: vnode::node::DbKind::Path { root: root.clone(), freezer: false }, ..Default::default() },
+        None => NodeCfg::default(),
+    };
+    let node = Node::boot(gi, &node_cfg);
     if across_timer {
         std::thread::sleep(Duration::from_millis(20));
         unsafe { std::env::remove_var("VERIF_ORPHAN_CLEAN_MS") };
@@ -859,7 +873,32 @@ fn deliver_and_check(
     }
     hooks::observe(None);
     hooks::set_plan(hooks::DelayPlan::default());
+    drop(snap);
     drop(node);
+    // restart: the same database reopened through the production path must come back with the
+    // same tip, the same canonical state and the same proposal view
+    if let Some(root) = restart_root {
+        let reopened = std::panic::catch_unwind(std::panic::AssertUnwindSafe(|| Node::boot(gi, &node_cfg)));
+        let _ = hooks::take_panics();
+        match reopened {
+            Err(_) => r.c20.count("restart.reopen_not_possible"),
+            Ok(n2) => {
+                r.c20.count("restart.reopened");
+                let snap2 = n2.shared.snapshot();
+                let tip2 = h(&snap2.tip_hash());
+                if tip2 != tip {
+                    r.c01.violation("restart.tip_changed", format!("tip {} before the restart, {} after", hx(&tip), hx(&tip2)), json!({"order_kind": format!("{kind:?}")}));
+                } else {
+                    let d2 = dump::dump(n2.shared.store());
+                    compare_and_report(&d2, rc, "after_restart", r, true);
+                    check_view(rc, &tip2, snap2.proposals().set(), snap2.proposals().gap(), "after_restart", r);
+                }
+                drop(snap2);
+                drop(n2);
+            }
+        }
+        let _ = std::fs::remove_dir_all(&root);
+    }
 }
 
 /// C19: membership proofs served from the node's MMR verify against the root committed by
